@@ -25,8 +25,10 @@ Proof. exact obs_eqb_spec. Qed.
 Print Assumptions C15_obs_eqb.
 
 (* ---- the clauses, stated on the model's own state.  Ready w: the reactor is at rest (not running, no
-   pending calls, no selectables, never really stopped, reactor.stop is the original, no run() in
-   progress) and the harness's log of executed calls is empty. ---- *)
+   pending calls, no selectables, never really stopped, no run() in progress) and the harness's log of
+   executed calls is empty.  WHO reactor.stop is (the stock method or any instance-level override) and
+   which handlers are installed (SIG_DFL, SIG_IGN, any callable, or the disposition getsignal() reports as
+   None) is arbitrary. ---- *)
 
 (* the result is the one the timing dictates: a synchronous result is returned / raised; otherwise at least
    one of {timeout call, Deferred fires, stop request} ran, each of those that ran was due at the earliest of
@@ -84,12 +86,15 @@ Theorem C15_clean : forall batch T f w, Ready w ->
 Proof. exact clause_clean. Qed.
 Print Assumptions C15_clean.
 
-(* reactor.stop is the original again and was never really called; the handlers of SIGINT, SIGTERM, SIGCHLD
-   are what they were before the call - whatever the reactor and the function installed meanwhile *)
+(* reactor.stop is who it was before the call - the stock method or ANY override installed on the instance
+   before - and the stock stop was never really called; the handlers of SIGINT, SIGTERM, SIGCHLD are what they
+   were before the call, whatever they were and whatever the reactor and the function installed meanwhile.
+   The one exception is a disposition that getsignal() reported as None: signal.signal() refuses to install
+   None, nobody can put it back once the reactor has taken the signal over, and nothing is claimed for it *)
 Theorem C15_restored : forall batch T f w, Ready w ->
   let w' := snd (run1 batch T f w) in
-  w_stop w' = SReal /\ really_stopped (w_r w') = false
-  /\ forall s, In s reactor_signals -> getsig s (w_sig w') = getsig s (w_sig w).
+  w_stop w' = w_stop w /\ really_stopped (w_r w') = false
+  /\ forall s, In s reactor_signals -> getsig s (w_sig w) <> h_none -> getsig s (w_sig w') = getsig s (w_sig w).
 Proof. exact clause_restored. Qed.
 Print Assumptions C15_restored.
 
@@ -122,18 +127,22 @@ Proof. exact tab_signals_distinct. Qed.
 Print Assumptions C15_table_signals_distinct.
 
 (* non-vacuity: a failing run, then a Deferred firing exactly at the timeout tick (the oracle lets it win),
-   then a run that leaves junk and is stopped, a refused run, and a run after clear_junk that re-enters *)
+   then a run that leaves junk and is stopped, a refused run, and a run after clear_junk that re-enters;
+   reactor.stop is overridden on the instance before the 2nd run, reset before the 4th, overridden before the 5th;
+   in the 5th SIGTERM has a handler getsignal() reports as None: the run is unaffected, the other two are restored *)
 Example C15_example :
   let f0 := mkFn (Sync 0 (Fail 1)) [] 0 None false false None in
   let f1 := mkFn (Later 5 (Succeed 6)) [5] 0 None false false None in
   let f2 := mkFn Never [1; 9] 2 (Some 3) false false (Some (sig_int, 8)) in
   let f3 := mkFn (Sync 0 (Succeed 4)) [] 0 None false true None in
   let i := mkInput [2] false
-             [mkRun false true [0;0;0] 5 f0; mkRun false true [3;1;4] 5 f1; mkRun false true [2;0;0] 5 f2;
-              mkRun false false [0;0;0] 5 f3; mkRun false true [0;0;0] 5 f3] in
+             [mkRun false true [0;0;0] None 5 f0; mkRun false true [3;1;4] (Some 2) 5 f1;
+              mkRun false true [2;0;0] None 5 f2; mkRun false false [0;0;0] (Some 0) 5 f3;
+              mkRun false true [1;h_none;3] (Some 1) 5 f3] in
   wf i /\ spec_okb i (model i) = true
   /\ map o_res (model i) = [Raised (EUser 1); Ok 6; Raised ENoResult; Raised EStaleJunk; Ok 4]
   /\ map o_junk (model i) = [[]; [10]; [0; 11; 100; 101]; [0; 11; 100; 101]; []]
-  /\ map o_sigs (model i) = [[0;0;0]; [3;1;4]; [2;0;0]; [0;0;0]; [0;0;0]]
-  /\ map o_reentry (model i) = [None; None; None; None; Some true].
+  /\ map o_sigs (model i) = [[0;0;0]; [3;1;4]; [2;0;0]; [0;0;0]; [1;9;3]]
+  /\ map o_reentry (model i) = [None; None; None; None; Some true]
+  /\ map o_stop (model i) = [0; 2; 2; 0; 1] /\ map o_stopped (model i) = [false; false; false; false; false].
 Proof. vm_compute. repeat split; repeat constructor. Qed.
